@@ -89,6 +89,21 @@ def run_step(world, apps, fail):
     return ok, executed, tr
 
 
+def scripted_histories():
+    """deterministic histories run before the generated ones: two apps that share labels, one gaining a
+    label in a later run than the run in which the other recorded the same label"""
+    out = []
+    for n0, steps in (
+            ({'vapp': 2, 'wapp': 0}, ['grow:wapp', 'run', 'grow:wapp', 'run', 'noop']),
+            ({'vapp': 1, 'wapp': 1}, ['grow:vapp', 'run', 'grow:wapp', 'run', 'noop']),
+            ({'vapp': 2}, ['newapp:0', 'run', 'grow:wapp', 'grow:wapp', 'run', 'grow:wapp', 'subset:wapp', 'noop']),
+            ({'vapp': 0, 'wapp': 2}, ['grow:vapp', 'subset:vapp', 'grow:vapp', 'fail', 'run'])):
+        w = World(True)
+        w.n.update(n0)
+        out.append((w, steps))
+    return out
+
+
 def gen_history(rng):
     shared = rng.random() < 0.4
     w = World(shared)
@@ -108,12 +123,13 @@ def run(ctx):
     ctx.rule = ('histories of 3-7 steps over one or two apps (optionally sharing evolution labels): full runs, runs '
                 'limited to one app, runs after an app gained evolutions or appeared, failed runs (fault at the first '
                 'statement), no-op re-runs, mark-evolution-applied, wipe-evolution; non-trivial = at least two runs')
-    n = 22 if quick else 400
+    n = 60 if quick else 800
     mark_witness = None
+    scripted = scripted_histories()
     for h in range(n):
         if ctx.time_left() < 20:
             break
-        w, kinds = gen_history(ctx.rng)
+        w, kinds = scripted.pop(0) if scripted else gen_history(ctx.rng)
         evorig.fresh_databases()
         evorig.clear_evolutions()
         evorig.install_models({'apps': []})
@@ -125,22 +141,24 @@ def run(ctx):
         known = set()
         nruns = 0
         marked_unknown = False
+        wiped = False
         for k in ['run'] + kinds:
             apps_now = sorted(w.n)
+            k, _, arg = k.partition(':')
             if k == 'grow':
-                a = ctx.rng.choice(apps_now)
+                a = arg or ctx.rng.choice(apps_now)
                 w.n[a] += 1
                 continue
             if k == 'newapp':
                 if 'wapp' not in w.n:
-                    w.n['wapp'] = ctx.rng.randint(0, 2)
+                    w.n['wapp'] = int(arg) if arg else ctx.rng.randint(0, 2)
                 continue
             w.install()
             cfg = [{'label': a, 'sequence': w.sequence(a)} for a in apps_now]
             if k in ('run', 'noop', 'subset', 'fail'):
                 sel = None
                 if k == 'subset' and len(apps_now) > 1:
-                    sel = [ctx.rng.choice(apps_now)]
+                    sel = [arg or ctx.rng.choice(apps_now)]
                 fail = (k == 'fail')
                 before, _ = observe()
                 ok, executed, tr = run_step(w, sel, fail)
@@ -171,6 +189,14 @@ def run(ctx):
                     ctx.fail(None, 'an evolution was executed twice in one run', rep)
                 if not ok and after != before:
                     ctx.fail(None, 'a failed run changed the recorded evolutions', rep)
+                if ok and not wiped:
+                    # a completed run leaves every label of every evolved app recorded exactly once
+                    for c in sel_cfg:
+                        for lab in c['sequence']:
+                            cnt = keys.count((c['label'], lab))
+                            if cnt == 0 or (cnt > 1 and not marked_unknown):
+                                ctx.fail(None, 'after a completed run %s.%s is recorded %d time(s)' % (c['label'], lab, cnt),
+                                         dict(rep, recorded=after))
                 if ok:
                     known.update(c['label'] for c in sel_cfg)
             elif k == 'mark':
@@ -204,6 +230,7 @@ def run(ctx):
                         call_command('wipe-evolution', r[1], app_label=r[0], interactive=False)
                 except CommandError:
                     pass
+                wiped = True
                 model_steps.append({'t': 'wipe', 'app': r[0], 'label': r[1]})
                 after, _ = observe()
                 real_obs.append({'recorded': after, 'executed': []})
